@@ -60,6 +60,8 @@ theorem Inv3.step_x1 (I : Inv1 c s) (J : Inv2 c s) (K : Inv3 c s) (X : Inv3X s) 
   have hpk : ∀ x k, s.pc t = .gTake x k → k.pushed = none ∨ ∃ id, x = .task id ∧ k.pushed = some id := by
     intro x k hp; rw [hp] at hwf; exact pushed_cont c x k hwf
   have hx1t := X.x1 t
+  have hwfk : ∀ x k, s.pc t = .gTake x k → ContOK c (some x) k := by
+    intro x k hp; rw [hp] at hwf; exact hwf
   have hk : ∀ p k, s.pc t = .gPub p k → k.carry = none := by
     intro p k hp; rw [hp] at hwf; exact carry_cont c none k hwf
   have hb3c := b3c t
@@ -87,6 +89,35 @@ theorem Inv3.step_x1 (I : Inv1 c s) (J : Inv2 c s) (K : Inv3 c s) (X : Inv3X s) 
   case rLPub id0 cid p k0 hpc hown hfree hst =>
     have hc3 : p < (s.l k0).cells.length := Q.stAt_some_lt _ _ _ hst
     clear l4; p_close
+  case gTakeTask id0 k hpc =>
+    clear l4
+    dsimp only at hpu ⊢
+    by_cases ht : t' = t
+    · subst ht
+      simp only [upd_same, Pc.pushed] at hpu
+      rcases hpk _ _ hpc with hn | ⟨id1, hx, hp1⟩
+      · rw [hn] at hpu; cases hpu
+      · injection hx with hx
+        rw [hp1] at hpu; injection hpu with hpu
+        have hid : id = id0 := by rw [← hpu, ← hx]
+        subst hid
+        have hcar : (s.pc t').carry = some id := by rw [hpc]; rfl
+        have hrole : (s.pc t').role ≠ .bal := by
+          rw [hpc]; simp only [Pc.role]
+          exact pushed_cont_role c _ k (hwfk _ _ hpc) id1 hp1
+        have hv := v2 t' id hcar hrole
+        have hk' : s.known id = true := by
+          have := b3c t' id hcar
+          cases hkn : s.known id with
+          | true => rfl
+          | false => rw [(a5 id).mpr hkn] at this; cases this
+        exact ⟨hk', hv.2, Or.inl (by simp [upd])⟩
+    · have hpu' : (s.pc t').pushed = some id := by simpa [upd, ht] using hpu
+      obtain ⟨h1, h2, h3⟩ := x1 t' id hpu'
+      refine ⟨h1, h2, ?_⟩
+      by_cases hid : id = id0
+      · left; simp [upd, hid]
+      · simpa [upd, hid] using h3
   all_goals (clear l4; try p_close)
   all_goals (trace_state; sorry)
 
@@ -127,6 +158,8 @@ theorem Inv3.step_x2 (I : Inv1 c s) (J : Inv2 c s) (K : Inv3 c s) (X : Inv3X s) 
   have hpk : ∀ x k, s.pc t = .gTake x k → k.pushed = none ∨ ∃ id, x = .task id ∧ k.pushed = some id := by
     intro x k hp; rw [hp] at hwf; exact pushed_cont c x k hwf
   have hx1t := X.x1 t
+  have hwfk : ∀ x k, s.pc t = .gTake x k → ContOK c (some x) k := by
+    intro x k hp; rw [hp] at hwf; exact hwf
   have hk : ∀ p k, s.pc t = .gPub p k → k.carry = none := by
     intro p k hp; rw [hp] at hwf; exact carry_cont c none k hwf
   have hb3c := b3c t
@@ -154,6 +187,39 @@ theorem Inv3.step_x2 (I : Inv1 c s) (J : Inv2 c s) (K : Inv3 c s) (X : Inv3X s) 
   case rLPub id0 cid p k0 hpc hown hfree hst =>
     have hc3 : p < (s.l k0).cells.length := Q.stAt_some_lt _ _ _ hst
     clear l4; p_close
+  case gTakeTask id0 k hpc =>
+    clear l4
+    dsimp only at h1 h2
+    have hcon : ∀ u, u ≠ t → (s.pc u).pushed = some id → (upd s.pc t (.gPub s.g.cells.length k) t).pushed = some id → False := by
+      intro u hu hpu hpt
+      simp only [upd_same, Pc.pushed] at hpt
+      rcases hpk _ _ hpc with hn | ⟨id1, hx, hp1⟩
+      · rw [hn] at hpt; cases hpt
+      · injection hx with hx
+        rw [hp1] at hpt; injection hpt with hpt
+        have hid : id = id0 := by rw [← hpt, ← hx]
+        subst hid
+        have hcar : (s.pc t).carry = some id := by rw [hpc]; rfl
+        have hrole : (s.pc t).role ≠ .bal := by
+          rw [hpc]; simp only [Pc.role]
+          exact pushed_cont_role c _ k (hwfk _ _ hpc) id1 hp1
+        have hv := v2 t id hcar hrole
+        have hg := t3c t id hcar
+        obtain ⟨_, _, h3⟩ := x1 u id hpu
+        rcases h3 with h3 | h3
+        · exact h3 hg
+        · rw [hv.1] at h3; cases h3
+    by_cases ha : t1 = t <;> by_cases hb : t2 = t
+    · rw [ha, hb]
+    · exfalso; subst ha
+      have h2' : (s.pc t2).pushed = some id := by simpa [upd, hb] using h2
+      exact hcon t2 hb h2' h1
+    · exfalso; subst hb
+      have h1' : (s.pc t1).pushed = some id := by simpa [upd, ha] using h1
+      exact hcon t1 ha h1' h2
+    · have h1' : (s.pc t1).pushed = some id := by simpa [upd, ha] using h1
+      have h2' : (s.pc t2).pushed = some id := by simpa [upd, hb] using h2
+      exact x2 t1 t2 id h1' h2'
   all_goals (clear l4; try p_close)
   all_goals (trace_state; sorry)
 
@@ -191,6 +257,8 @@ theorem Inv3.step_f2 (I : Inv1 c s) (J : Inv2 c s) (K : Inv3 c s) (X : Inv3X s) 
   have hpk : ∀ x k, s.pc t = .gTake x k → k.pushed = none ∨ ∃ id, x = .task id ∧ k.pushed = some id := by
     intro x k hp; rw [hp] at hwf; exact pushed_cont c x k hwf
   have hx1t := X.x1 t
+  have hwfk : ∀ x k, s.pc t = .gTake x k → ContOK c (some x) k := by
+    intro x k hp; rw [hp] at hwf; exact hwf
   have hk : ∀ p k, s.pc t = .gPub p k → k.carry = none := by
     intro p k hp; rw [hp] at hwf; exact carry_cont c none k hwf
   clear I J K X hwf
@@ -260,6 +328,8 @@ theorem Inv3.step_v2 (I : Inv1 c s) (J : Inv2 c s) (K : Inv3 c s) (X : Inv3X s) 
   have hpk : ∀ x k, s.pc t = .gTake x k → k.pushed = none ∨ ∃ id, x = .task id ∧ k.pushed = some id := by
     intro x k hp; rw [hp] at hwf; exact pushed_cont c x k hwf
   have hx1t := X.x1 t
+  have hwfk : ∀ x k, s.pc t = .gTake x k → ContOK c (some x) k := by
+    intro x k hp; rw [hp] at hwf; exact hwf
   have hk : ∀ p k, s.pc t = .gPub p k → k.carry = none := by
     intro p k hp; rw [hp] at hwf; exact carry_cont c none k hwf
   have hb3c := b3c t
